@@ -282,8 +282,12 @@ _counter = [0]
 
 
 def scratch_base():
-    base = "/dev/shm" if os.path.isdir("/dev/shm") and os.access("/dev/shm", os.W_OK) else "/tmp"
-    return os.path.join(base, f"wdmc-{os.getpid()}")
+    """Per-process scratch directory below the run's root (removed by the runner at exit)."""
+    root = os.environ.get("WDMC_SCRATCH")
+    if not root:
+        base = "/dev/shm" if os.path.isdir("/dev/shm") and os.access("/dev/shm", os.W_OK) else "/tmp"
+        root = os.path.join(base, f"wdmc-{os.getpid()}")
+    return os.path.join(root, str(os.getpid()))
 
 
 def build_tree(root, tree):
